@@ -1,6 +1,7 @@
 package mon
 
 import (
+	"reflect"
 	"fmt"
 	"sort"
 	"strings"
@@ -322,6 +323,12 @@ func runC16(e *Env) {
 			t.Fail("non-pointer-controller-accepted", "Resource(\"/\", %s{}) (a struct by value) was accepted", ct.Name)
 		}
 		s := "a string"
+		inst := reflect.ValueOf(ct.New("pp")) // *T
+		pp := reflect.New(inst.Type())        // **T
+		pp.Elem().Set(inst)
+		if _, panicked := catch(func() { rux.New().Resource("/", pp.Interface()) }); !panicked {
+			t.Fail("pointer-to-non-struct-accepted", "Resource(\"/\", <pointer to a pointer to %s>) did not panic: only a pointer to a struct is a controller", ct.Name)
+		}
 		if _, panicked := catch(func() { rux.New().Resource("/", &s) }); !panicked {
 			t.Fail("non-struct-controller-accepted", "Resource(\"/\", &string) was accepted")
 		}
